@@ -102,6 +102,13 @@ theorem registering_elsewhere_changes_nothing (m : Um.Tbl) (parent field parent'
     Um.urlFor (Um.register1 m parent field loc) parent' field' = Um.urlFor m parent' field' :=
   Um.urlFor_register1_other m parent field parent' field' loc hne
 
+/-- **concatenating the tables of the services keeps their order**: a field's list is what the table had followed
+    by what the concatenated one has (the order the chooser's fallback "first declared location" relies on) -/
+theorem concatenated_tables_keep_the_order_of_the_services (m other : Um.Tbl) (hnd : (other.map (·.1)).Nodup)
+    (key : String) (a b : List Um.Loc) (ha : Um.get m key = some a) (hb : other.lookup key = some b) :
+    Um.get (Um.concat m other) key = some (a ++ b) := by
+  rw [Um.get_concat other hnd m key, ha, hb]
+
 /-- and what was registered is found, as the last entry of the field's list -/
 theorem a_registered_location_is_found (m : Um.Tbl) (parent field : String) (loc : Um.Loc) :
     ∃ before, Um.urlFor (Um.register1 m parent field loc) parent field = .ok (before ++ [loc]) := by
